@@ -40,7 +40,10 @@ def dispatch (op : String) (args : List String) : Option String :=
         | none => "fail"
         | some (outs, pieces) =>
           " T ".intercalate (outs.map showTrack) ++ " R " ++
-            (if pieces.isEmpty then "-" else ",".intercalate (pieces.map fun c => s!"{c.off}:{c.size}")))
+            -- empty chunks (tracks with size-0 samples) copy nothing: they are left out on both sides, and what becomes
+            -- adjacent is merged again, as the implementation-side rendering does
+            (let ps := mergeRanges (pieces.filter fun c => c.size ≠ 0)
+             if ps.isEmpty then "-" else ",".intercalate (ps.map fun c => s!"{c.off}:{c.size}")))
   -- cropmdat <ms> <payloadStart> <base> <hex> {track}* : the payload the tool writes into the new mdat (`writeMdat`: the merged
   -- byte ranges copied in the order in which `fillTrakOutsAndByteRanges` collected them); the input file is given as the
   -- payload of its media mdat (`hex`) starting at absolute offset `base`
